@@ -28,6 +28,8 @@
 #include <pthread.h>
 #include <stdatomic.h>
 #include <unistd.h>
+#include <netinet/in.h>
+#include <sys/socket.h>
 
 #define MAXPEERS 4
 #define MAXWORK 8
@@ -63,6 +65,7 @@ static struct {
 	pthread_barrier_t bar;
 	pthread_mutex_t   cutmtx; // one reconnect at a time (pipe counting)
 	_Atomic bool      stop;
+	_Atomic long      c02_hits; // replies lost to C02's stale expiry in this case
 	char              xurl[128];
 	uint16_t          tcp_port;
 	uint32_t          common[MAXWORDS]; // a backtrace all peers may use
@@ -95,6 +98,35 @@ errname(int rv)
 	}
 }
 
+// ------------------------------------------------------------ expiry watch
+// A worker's reply send has a 10 s timeout and normally never waits.  If it
+// does wait (pipe busy) it can be hit by the timer defect of property C02 (the
+// stale expiry of the 20 ms receive that used the same aio before): an early
+// NNG_ETIMEDOUT is excused only if the library's trace hook shows a pick of
+// that aio by the expire loop which no completed timeout accounts for and
+// which is recent (see c04_req.c).
+#define PICK_AGE_NS 2000000000ULL
+typedef struct {
+	_Atomic(const void *) aio;
+	_Atomic long          picks;
+	_Atomic uint64_t      last_pick_ns;
+} watch;
+static watch WT[MAXWORK];
+
+static void
+c04_ev(int ev, const void *obj, uintptr_t a, uintptr_t b)
+{
+	(void) b;
+	if (ev != NNI_VE_AIO_EXPIRE || (int) a != NNG_ETIMEDOUT) return;
+	for (int i = 0; i < MAXWORK; i++) {
+		if (atomic_load_explicit(&WT[i].aio, memory_order_relaxed) == obj) {
+			atomic_store(&WT[i].last_pick_ns, vf_now_ns());
+			atomic_fetch_add(&WT[i].picks, 1);
+			return;
+		}
+	}
+}
+
 // ------------------------------------------------------------ workers (REP)
 typedef struct {
 	int            idx;
@@ -103,6 +135,7 @@ typedef struct {
 	const casecfg *cc;
 	pthread_t      thr;
 	long           served, dropped, estate_fresh, estate_second, recv_timeouts;
+	long           acct, premature;
 } worker;
 
 static void
@@ -147,6 +180,9 @@ worker_thread(void *arg)
 	vf_rng   r;
 	vf_rng_seed(&r, w->cc->key, 300 + (uint64_t) w->idx);
 	if (nng_aio_alloc(&aio, NULL, NULL) != 0) vf_harness_fail("aio alloc");
+	watch *wt = &WT[w->idx];
+	atomic_store(&wt->picks, 0);
+	atomic_store(&wt->aio, (const void *) aio);
 	if (expect_estate_send(w, aio, "fresh")) w->estate_fresh++;
 	while (!atomic_load(&G.stop)) {
 		nng_aio_set_timeout(aio, 20);
@@ -159,6 +195,7 @@ worker_thread(void *arg)
 		int rv = nng_aio_result(aio);
 		if (rv == NNG_ETIMEDOUT) {
 			w->recv_timeouts++;
+			if (atomic_load(&wt->picks) > w->acct) w->acct++;
 			continue;
 		}
 		if (rv != 0) break;
@@ -186,12 +223,26 @@ worker_thread(void *arg)
 		nng_msg_append(m, buf, bl + 8);
 		nng_aio_set_msg(aio, m);
 		nng_aio_set_timeout(aio, LONG_MS);
+		uint64_t st0 = vf_now_ns();
 		w_send(w, aio);
 		nng_aio_wait(aio);
 		if ((rv = nng_aio_result(aio)) != 0) {
 			if ((m = nng_aio_get_msg(aio)) != NULL) nng_msg_free(m);
 			nng_aio_set_msg(aio, NULL);
 			if (rv == NNG_ECLOSED) break;
+			if (rv == NNG_ETIMEDOUT && (vf_now_ns() - st0) / 1000000 < LONG_MS * 9 / 10) {
+				long picks = atomic_load(&wt->picks);
+				if (picks > w->acct && atomic_load(&wt->last_pick_ns) + PICK_AGE_NS >= st0) {
+					// C02's stale expiry took the queued reply with it: the
+					// request stays unanswered, which the requester would
+					// report as lost - nothing this property can judge
+					w->acct++;
+					w->premature++;
+					atomic_fetch_add(&G.c02_hits, 1);
+					continue;
+				}
+				w->acct = picks;
+			}
 			char key[96];
 			snprintf(key, sizeof(key), "C04/rep-send-failed/%s", errname(rv));
 			vf_violation(key, "REP %s %d: reply to peer %u seq %llu failed: %s", w->is_sock ? "socket" : "context", w->idx, tag & 0xff, (unsigned long long) seq, nng_strerror(rv));
@@ -201,6 +252,7 @@ worker_thread(void *arg)
 		// exactly one send per receive
 		if (vf_chance(&r, 1, 6) && expect_estate_send(w, aio, "after-reply")) w->estate_second++;
 	}
+	atomic_store(&wt->aio, (const void *) NULL);
 	nng_aio_free(aio);
 	return NULL;
 }
@@ -473,7 +525,11 @@ peer_thread(void *arg)
 			} else if (rv < 0) {
 				char key[96];
 				snprintf(key, sizeof(key), "C04/rep-lost/%s", pkname[p->kind]);
-				vf_violation(key, "connection %d: %ld request(s) were received and answered by REP but no reply arrived within %d ms", p->idx, out, LONG_MS);
+				if (atomic_load(&G.c02_hits) > 0) {
+					vf_stat("rep_lost_excused_by_stale_expiry", 1);
+				} else {
+					vf_violation(key, "connection %d: %ld request(s) were received and answered by REP but no reply arrived within %d ms", p->idx, out, LONG_MS);
+				}
 				p->failed = true;
 			} else if (++bad > 8) {
 				p->failed = true;
@@ -589,7 +645,10 @@ gone_probe(nng_ctx pc, bool use_sock, nng_aio *a1, nng_aio *a2)
 	nng_aio_wait(a1);
 	if ((rv = nng_aio_result(a1)) != 0) {
 		nng_socket_close(xs);
-		if (rv == NNG_ETIMEDOUT) return; // C02's stale expiry; nothing to judge
+		if (rv == NNG_ETIMEDOUT) {
+			vf_stat("rep_gone_probe_skipped", 1); // C02's stale expiry; nothing to judge
+			return;
+		}
 		vf_harness_fail("gone probe recv: %s", nng_strerror(rv));
 	}
 	m = nng_aio_get_msg(a1);
@@ -636,6 +695,7 @@ run_case(long idx, const casecfg *cc)
 	pthread_mutex_init(&G.cutmtx, NULL);
 	probe_second_recv_sock = 0;
 	atomic_store(&G.stop, false);
+	atomic_store(&G.c02_hits, 0);
 	probe_second_recv = probe_idle_send = probe_gone_send = 0;
 	for (int i = 0; i < MAXWORDS; i++) G.common[i] = (uint32_t) vf_rand(&r) & 0x7fffffffu;
 	G.common[MAXWORDS - 1] |= 0x80000000u;
@@ -780,6 +840,7 @@ run_case(long idx, const casecfg *cc)
 		vf_stat("estate_rep_send_fresh", w->estate_fresh);
 		vf_stat("estate_rep_send_after_reply", w->estate_second);
 		vf_stat("rep_recv_timeouts", w->recv_timeouts);
+		vf_stat("rep_send_premature_timeouts", w->premature);
 		if (!w->is_sock) nng_ctx_close(w->ctx);
 	}
 	vf_stat("rep_requests", sent);
@@ -817,11 +878,370 @@ run_case(long idx, const casecfg *cc)
 	vf_nng_init(4, 2, 2);
 }
 
+// ------------------------------------------------------------ staged: replies queued behind a busy pipe
+// A reply is sent at once only if its connection is idle; otherwise the context
+// waits in that pipe's send queue, and a context whose queued reply is still
+// waiting may receive the next request and reply again, which supersedes the
+// queued reply.  Random traffic with small replies and prompt readers never
+// gets there, so it is staged: requester A (raw TCP, tiny receive buffer) stops
+// reading; worker W1 answers A's first request with a multi-megabyte reply,
+// which keeps A's pipe busy; W2 (a context with two send aios, or the socket)
+// takes A's second request and replies: queued (its aio stays pending).  Then
+// one of
+//   same-pipe    W2 takes A's third request and replies: the queued reply is
+//                superseded (ECANCELED), the new one queues on A;
+//   other-busy   B's pipe is made busy the same way by W3; W2 takes B's second
+//                request and replies: superseded, the new one queues on B;
+//   other-idle   W2 takes a request of idle B and replies: sent at once, the
+//                reply queued on A stays queued;
+//   cancel       the queued send is cancelled; W2 takes A's third request and
+//                replies again (queued);
+//   timeout      the queued send has a 5 ms timeout; then as cancel;
+//   ctx-close    W2's context is closed with the reply queued.
+// Then A (and B) read everything.  Judged by the unchanged per-connection
+// oracle: every frame on a connection answers a request of that connection
+// with that request's backtrace, once; a reply may be missing only if its send
+// aio failed; finally a fresh exchange on each connection flushes out anything
+// that went to the wrong one.
+enum { SB_SAME, SB_OTHER_BUSY, SB_OTHER_IDLE, SB_CANCEL, SB_TIMEOUT, SB_CLOSE, SB_N };
+static const char *sbname[SB_N] = { "same-pipe", "other-pipe-busy", "other-pipe-idle", "cancel", "timeout", "ctx-close" };
+
+typedef struct {
+	int      idx;
+	bool     is_sock, closed;
+	nng_ctx  ctx;
+	nng_aio *r, *s[2];
+} sbw;
+
+typedef struct {
+	nng_aio *aio;   // NULL: unused slot
+	peer    *to;    // connection whose request it answers
+	uint32_t seq;
+} sbreply;
+
+static int
+sb_connect(uint16_t port)
+{
+	struct sockaddr_in sin;
+	uint16_t           peerproto = 0;
+	int                sz = 4096;
+	int                fd = socket(AF_INET, SOCK_STREAM, 0);
+	if (fd < 0) vf_harness_fail("socket");
+	setsockopt(fd, SOL_SOCKET, SO_RCVBUF, &sz, sizeof(sz));
+	memset(&sin, 0, sizeof(sin));
+	sin.sin_family = AF_INET;
+	sin.sin_port = htons(port);
+	sin.sin_addr.s_addr = htonl(INADDR_LOOPBACK);
+	if (connect(fd, (struct sockaddr *) &sin, sizeof(sin)) != 0) vf_harness_fail("staged busy: connect: %s", strerror(errno));
+	if (vf_sp_handshake(fd, 0x30, &peerproto, 5000) != 0 || peerproto != 0x31) vf_harness_fail("staged busy: raw handshake (peer %04x)", peerproto);
+	return fd;
+}
+
+// the worker takes the one request that is waiting; false: gave up
+static bool
+sb_take(sbw *w, uint32_t *tag, uint64_t *seq)
+{
+	for (int attempt = 0; attempt < 4; attempt++) {
+		nng_aio_set_timeout(w->r, LONG_MS);
+		if (w->is_sock) {
+			nng_socket_recv(G.rep, w->r);
+		} else {
+			nng_ctx_recv(w->ctx, w->r);
+		}
+		nng_aio_wait(w->r);
+		int rv = nng_aio_result(w->r);
+		if (rv == NNG_ETIMEDOUT) continue; // (C02's stale expiry, or really nothing: give up after 4)
+		if (rv != 0) vf_harness_fail("staged busy: worker receive: %s", nng_strerror(rv));
+		nng_msg *m = nng_aio_get_msg(w->r);
+		nng_aio_set_msg(w->r, NULL);
+		bool ok = vf_body_check(nng_msg_body(m), nng_msg_len(m), tag, seq) == 0;
+		if (!ok) vf_violation("C04/request-garbled/body", "staged busy: REP received a %zu-byte request that fails its checksum", nng_msg_len(m));
+		nng_msg_free(m);
+		return ok;
+	}
+	return false;
+}
+
+static void
+sb_reply(sbw *w, int which, uint32_t tag, uint64_t seq, size_t bl, int timeout_ms)
+{
+	nng_msg *m;
+	if (nng_msg_alloc(&m, bl + 8) != 0) vf_harness_fail("msg alloc");
+	uint8_t *b = nng_msg_body(m);
+	vf_body_make(b, bl, tag, seq);
+	put32(b + bl, (uint32_t) w->idx);
+	put32(b + bl + 4, 0);
+	nng_aio_set_msg(w->s[which], m);
+	nng_aio_set_timeout(w->s[which], timeout_ms);
+	if (w->is_sock) {
+		nng_socket_send(G.rep, w->s[which]);
+	} else {
+		nng_ctx_send(w->ctx, w->s[which]);
+	}
+}
+
+// read one reply frame of any size on a raw connection and judge it;
+// 0 answered one of ours, 1 judged bad, -1 nothing arrived
+static int
+sb_recv(peer *p, uint8_t *buf, size_t cap, int timeout_ms)
+{
+	uint32_t bt[MAXWORDS + 1];
+	int      nbt = 0;
+	long     len = vf_sp_recv_frame(p->fd, false, buf, cap, timeout_ms);
+	if (len < 0) return -1;
+	size_t off = 0;
+	bool   end = false;
+	while (!end && off + 4 <= (size_t) len && nbt < MAXWORDS) {
+		bt[nbt] = get32(buf + off);
+		end = (bt[nbt] & 0x80000000u) != 0;
+		nbt++;
+		off += 4;
+	}
+	if (!end) {
+		vf_violation("C04/rep-backtrace/rawtcp/no-request-id", "staged busy: connection %d: a %ld-byte reply frame has no request id word in its first %d words", p->idx, len, nbt);
+		return 1;
+	}
+	return peer_judge(p, bt, nbt, buf + off, (size_t) len - off) ? 0 : 1;
+}
+
+static void
+staged_busy(long idx)
+{
+	casecfg      cc;
+	vf_rng       r;
+	nng_listener lt;
+	peer         pr[2];
+	sbw          w[4];
+	sbreply      rp[8];
+	int          nrp = 0, rv, port = 0;
+	uint32_t     tag, seqA = 0, seqB = 0;
+	uint64_t     seq;
+	const size_t cap = (9u << 20) + 4096;
+	uint8_t     *buf = malloc(cap);
+
+	memset(&cc, 0, sizeof(cc));
+	vf_rng_seed(&r, vf_seed, 5000 + (uint64_t) idx);
+	cc.key = vf_rand(&r);
+	cc.nonce = (uint32_t) (vf_rand(&r) & 0xffff);
+	cc.npeers = 2;
+	cc.ttl = vf_chance(&r, 1, 2) ? 8 : (int) vf_range(&r, 1, 4);
+	cc.kind[0] = cc.kind[1] = PK_TCP;
+	int    variant = (int) (idx % SB_N);
+	bool   w2_sock = variant != SB_CLOSE && vf_chance(&r, 1, 3);
+	size_t bigA = (size_t) vf_range(&r, 3, 8) << 20, bigB = (size_t) vf_range(&r, 3, 8) << 20;
+	vf_case_begin(idx, "staged: reply queued behind a busy pipe, then %s (second worker is %s, ttl %d, %zu MB reply)", sbname[variant], w2_sock ? "the socket" : "a context", cc.ttl, bigA >> 20);
+	vf_watchdog(120);
+	for (int i = 0; i < MAXWORDS; i++) G.common[i] = (uint32_t) vf_rand(&r) & 0x7fffffffu;
+	G.common[MAXWORDS - 1] |= 0x80000000u;
+	if ((rv = nng_rep0_open(&G.rep)) != 0) vf_harness_fail("rep open: %s", nng_strerror(rv));
+	nng_socket_set_int(G.rep, NNG_OPT_MAXTTL, cc.ttl);
+	nng_socket_set_size(G.rep, NNG_OPT_RECVMAXSZ, 0);
+	if ((rv = nng_listen(G.rep, "tcp://127.0.0.1:0", &lt, 0)) != 0) vf_harness_fail("rep listen tcp: %s", nng_strerror(rv));
+	if ((rv = nng_listener_get_int(lt, NNG_OPT_BOUND_PORT, &port)) != 0) vf_harness_fail("bound port");
+	memset(pr, 0, sizeof(pr));
+	for (int i = 0; i < 2; i++) {
+		peer *p = &pr[i];
+		p->idx = i;
+		p->kind = PK_TCP;
+		p->cc = &cc;
+		p->nrecs = 16;
+		p->recs = calloc(p->nrecs, sizeof(reqrec));
+		vf_rng_seed(&p->rng, cc.key, 200 + (uint64_t) i);
+		p->fd = sb_connect((uint16_t) port);
+	}
+	for (int i = 0; vf_pipe_count(G.rep) < 2; i++) {
+		if (i > 5000) vf_harness_fail("staged busy: REP has %d of 2 pipes", vf_pipe_count(G.rep));
+		vf_msleep(1);
+	}
+	memset(w, 0, sizeof(w));
+	for (int i = 0; i < 4; i++) {
+		w[i].idx = i;
+		w[i].is_sock = i == 1 && w2_sock;
+		if (!w[i].is_sock && nng_ctx_open(&w[i].ctx, G.rep) != 0) vf_harness_fail("ctx open");
+		if (nng_aio_alloc(&w[i].r, NULL, NULL) != 0 || nng_aio_alloc(&w[i].s[0], NULL, NULL) != 0 || nng_aio_alloc(&w[i].s[1], NULL, NULL) != 0) vf_harness_fail("aio alloc");
+	}
+	memset(rp, 0, sizeof(rp));
+	peer *A = &pr[0], *B = &pr[1];
+	bool  established = false, ok = true;
+#define SB_REQ(P, sq)                                                                          \
+	do {                                                                                   \
+		if (peer_send((P), ++(sq), true) != 0) vf_harness_fail("staged busy: request write"); \
+	} while (0)
+#define SB_NOTE(aio_, P, sq)          \
+	do {                          \
+		rp[nrp].aio = (aio_); \
+		rp[nrp].to = (P);     \
+		rp[nrp].seq = (sq);   \
+		nrp++;                \
+	} while (0)
+	// 1. A's pipe becomes busy
+	SB_REQ(A, seqA);
+	ok = sb_take(&w[0], &tag, &seq);
+	if (ok) {
+		sb_reply(&w[0], 0, tag, seq, bigA, LONG_MS);
+		SB_NOTE(w[0].s[0], A, (uint32_t) seq);
+		// 2. the second worker's reply has to queue
+		SB_REQ(A, seqA);
+		ok = sb_take(&w[1], &tag, &seq);
+	}
+	if (ok) {
+		sb_reply(&w[1], 0, tag, seq, VF_BODY_MIN + vf_below(&r, 64), variant == SB_TIMEOUT ? 5 : LONG_MS);
+		SB_NOTE(w[1].s[0], A, (uint32_t) seq);
+		// (nothing is being read, so a send that was handed to the pipe
+		// completes at once; one that is still pending after the first
+		// worker's has completed is queued)
+		nng_aio_wait(w[0].s[0]);
+		vf_usleep(300);
+		established = nng_aio_busy(w[1].s[0]) || variant == SB_TIMEOUT;
+		vf_stat(established ? "rep_reply_queued_behind_busy" : "rep_reply_not_queued", 1);
+		if (established && variant != SB_TIMEOUT && vf_chance(&r, 1, 2)) {
+			// one send per receive, also while that one send is still
+			// queued: a further send is refused and disturbs nothing
+			worker pw = { .idx = 1, .is_sock = w[1].is_sock, .ctx = w[1].ctx };
+			if (expect_estate_send(&pw, w[1].s[1], "reply-still-queued")) vf_stat("estate_rep_send_while_reply_queued", 1);
+		}
+	}
+	if (ok && established) {
+		switch (variant) {
+		case SB_SAME:
+			SB_REQ(A, seqA);
+			if (!(ok = sb_take(&w[1], &tag, &seq))) break;
+			sb_reply(&w[1], 1, tag, seq, VF_BODY_MIN + vf_below(&r, 64), LONG_MS);
+			SB_NOTE(w[1].s[1], A, (uint32_t) seq);
+			break;
+		case SB_OTHER_BUSY:
+			SB_REQ(B, seqB);
+			if (!(ok = sb_take(&w[2], &tag, &seq))) break;
+			sb_reply(&w[2], 0, tag, seq, bigB, LONG_MS);
+			SB_NOTE(w[2].s[0], B, (uint32_t) seq);
+			nng_aio_wait(w[2].s[0]);
+			SB_REQ(B, seqB);
+			if (!(ok = sb_take(&w[1], &tag, &seq))) break;
+			sb_reply(&w[1], 1, tag, seq, VF_BODY_MIN + vf_below(&r, 64), LONG_MS);
+			SB_NOTE(w[1].s[1], B, (uint32_t) seq);
+			break;
+		case SB_OTHER_IDLE:
+			SB_REQ(B, seqB);
+			if (!(ok = sb_take(&w[1], &tag, &seq))) break;
+			sb_reply(&w[1], 1, tag, seq, VF_BODY_MIN + vf_below(&r, 64), LONG_MS);
+			SB_NOTE(w[1].s[1], B, (uint32_t) seq);
+			break;
+		case SB_CANCEL:
+		case SB_TIMEOUT:
+			if (variant == SB_CANCEL) nng_aio_cancel(w[1].s[0]);
+			nng_aio_wait(w[1].s[0]);
+			if (nng_aio_result(w[1].s[0]) != 0) vf_stat("rep_queued_reply_cancelled", 1);
+			SB_REQ(A, seqA);
+			if (!(ok = sb_take(&w[1], &tag, &seq))) break;
+			sb_reply(&w[1], 1, tag, seq, VF_BODY_MIN + vf_below(&r, 64), LONG_MS);
+			SB_NOTE(w[1].s[1], A, (uint32_t) seq);
+			break;
+		default: // SB_CLOSE
+			nng_ctx_close(w[1].ctx);
+			w[1].closed = true;
+			nng_aio_wait(w[1].s[0]);
+			if (nng_aio_result(w[1].s[0]) != 0) vf_stat("rep_queued_reply_cancelled", 1);
+			break;
+		}
+		if (ok && (variant == SB_SAME || variant == SB_OTHER_BUSY)) {
+			// the superseded send ends now, long before anything is read
+			for (int i = 0; i < 2000 && nng_aio_busy(w[1].s[0]); i++) vf_msleep(1);
+			if (!nng_aio_busy(w[1].s[0]) && nng_aio_result(w[1].s[0]) == NNG_ECANCELED) vf_stat("rep_reply_superseded", 1);
+		}
+	}
+	if (!ok) vf_stat("rep_staged_busy_gave_up", 1);
+	// 3. the requesters read.  A reply is due unless its send has failed
+	// by now (what is still pending completes as the pipe drains).
+	for (int side = 0; side < 2; side++) {
+		peer *p = &pr[side];
+		for (;;) {
+			int due = 0;
+			for (int i = 0; i < nrp; i++) {
+				if (rp[i].to != p || p->recs[rp[i].seq].state != R_OUT) continue;
+				if (nng_aio_busy(rp[i].aio) || nng_aio_result(rp[i].aio) == 0) due++;
+			}
+			if (due == 0) break;
+			int got = sb_recv(p, buf, cap, LONG_MS);
+			if (got == 0) continue;
+			if (got < 0) {
+				// nothing came: fine only if the sends that looked due have failed meanwhile
+				int lost = 0;
+				for (int i = 0; i < nrp; i++) {
+					if (rp[i].to != p || p->recs[rp[i].seq].state != R_OUT) continue;
+					nng_aio_wait(rp[i].aio);
+					if (nng_aio_result(rp[i].aio) == 0) lost++;
+				}
+				if (lost) vf_violation("C04/rep-lost/staged-queued", "staged busy (%s): connection %d: %d reply send(s) completed successfully (queued behind a busy pipe or sent at once) but no reply arrived within %d ms", sbname[variant], p->idx, lost, LONG_MS);
+			}
+			break; // (after a bad frame too: the connection's framing is not to be trusted)
+		}
+	}
+	for (int i = 0; i < nrp; i++) {
+		nng_aio_wait(rp[i].aio);
+		int arv = nng_aio_result(rp[i].aio);
+		if (arv != 0) {
+			nng_msg *m = nng_aio_get_msg(rp[i].aio);
+			nng_aio_set_msg(rp[i].aio, NULL);
+			if (m != NULL) nng_msg_free(m);
+		}
+		vf_class("rep/staged-busy/%s/%s/send-%d=%s", sbname[variant], w2_sock ? "socket" : "context", i, errname(arv));
+	}
+	// 4. a fresh exchange on each connection: whatever was sent to the wrong
+	// connection is in front of its reply
+	for (int side = 0; side < 2 && ok; side++) {
+		peer    *p = &pr[side];
+		uint32_t *sq = side == 0 ? &seqA : &seqB;
+		SB_REQ(p, *sq);
+		if (!sb_take(&w[3], &tag, &seq)) break;
+		sb_reply(&w[3], 0, tag, seq, VF_BODY_MIN + 8, LONG_MS);
+		nng_aio_wait(w[3].s[0]);
+		if ((rv = nng_aio_result(w[3].s[0])) != 0) {
+			nng_msg *m = nng_aio_get_msg(w[3].s[0]);
+			nng_aio_set_msg(w[3].s[0], NULL);
+			if (m != NULL) nng_msg_free(m);
+			if (rv != NNG_ETIMEDOUT) vf_violation("C04/rep-send-failed/staged", "staged busy (%s): reply on the drained connection %d failed: %s", sbname[variant], p->idx, nng_strerror(rv));
+			break;
+		}
+		for (int k = 0; k < 8 && p->recs[*sq].state == R_OUT; k++) {
+			int got = sb_recv(p, buf, cap, LONG_MS);
+			if (got < 0) {
+				vf_violation("C04/rep-lost/staged-final", "staged busy (%s): connection %d: the final exchange's reply did not arrive", sbname[variant], p->idx);
+				break;
+			}
+			if (got > 0) break;
+		}
+		if (p->recs[*sq].state == R_ANSWERED) vf_stat("rep_staged_final_exchanges", 1);
+	}
+	vf_stat("rep_staged_busy_cases", 1);
+	vf_stat("rep_staged_replies_verified", pr[0].verified + pr[1].verified);
+	for (int i = 0; i < 2; i++) {
+		close(pr[i].fd);
+		free(pr[i].recs);
+	}
+	for (int i = 0; i < 4; i++) {
+		nng_aio_stop(w[i].r);
+		nng_aio_stop(w[i].s[0]);
+		nng_aio_stop(w[i].s[1]);
+		nng_msg *m;
+		if ((m = nng_aio_get_msg(w[i].s[0])) != NULL && nng_aio_result(w[i].s[0]) != 0) nng_msg_free(m);
+		if ((m = nng_aio_get_msg(w[i].s[1])) != NULL && nng_aio_result(w[i].s[1]) != 0) nng_msg_free(m);
+		nng_aio_free(w[i].r);
+		nng_aio_free(w[i].s[0]);
+		nng_aio_free(w[i].s[1]);
+		if (!w[i].is_sock && !w[i].closed) nng_ctx_close(w[i].ctx);
+	}
+	free(buf);
+	nng_socket_close(G.rep);
+	vf_nng_fini("C04");
+	vf_nng_init(4, 2, 2);
+}
+
 int
 main(int argc, char **argv)
 {
 	vf_init(argc, argv);
 	vf_nng_init(4, 2, 2);
+	vf_ev_hook(c04_ev);
 	bool thorough = vf_tier == 1;
 	for (long idx = 0; idx < vf_cases; idx++) {
 		if (!vf_want_case(idx)) continue;
@@ -847,6 +1267,9 @@ main(int argc, char **argv)
 		c.jit_permille = (int) vf_range(&r, 5, 60);
 		c.jit_us = (int) vf_range(&r, 20, 300);
 		run_case(idx, &c);
+	}
+	for (long j = 0; j < (thorough ? 24 : 12); j++) {
+		if (vf_want_case(vf_cases + j)) staged_busy(vf_cases + j);
 	}
 	vf_nng_fini("C04");
 	return vf_finish();
